@@ -398,7 +398,9 @@ func (f *Frame) callFunction(fn *ssa.Function, args []Val, bind []Val, c *ssa.Ca
 	}
 	// havoc
 	m := eng.modOf(fn)
+	preH := f.cur.clone()
 	f.havocKeeping(f.cur, m, pkgOfFn(fn))
+	f.preserveBelowFrontier(preH, m, eng.freshOnlyOf(fn, m))
 	return vc.freshResult(f, sig.Results(), fn.Name()), false
 }
 
@@ -495,7 +497,9 @@ func (e *Engine) derefsUnconditionally(fn *ssa.Function, p *ssa.Parameter) bool 
 }
 
 func (f *Frame) applyContractFn(ct *Contract, fn *ssa.Function, names []string, args []Val, m ModSet, pos token.Pos) Val {
+	f.callFresh = f.vc.eng.freshOnlyOf(fn, m)
 	res := f.applyContract(ct, names, args, fn.Signature.Results(), m, fn.Name(), pos, fn == f.vc.top)
+	f.callFresh = nil
 	f.noteTokenRead(fn, res, pos)
 	return res
 }
@@ -522,6 +526,7 @@ func (f *Frame) applyContract(ct *Contract, names []string, args []Val, results 
 	}
 	old := f.cur.clone()
 	f.havocKeeping(f.cur, m, ct.Pkg)
+	f.preserveBelowFrontier(old, m, f.callFresh) // what the callee writes only in its own objects
 	res := vc.freshResult(f, results, short)
 	post := &SpecEnv{f: f, vars: env.vars, st: f.cur, old: old, pkg: ct.Pkg}
 	if results.Len() == 1 {
